@@ -13,7 +13,7 @@ T = {
          "model hash LinHash (equalities only; a deviation is found when some input distinguishes it), toy DH group; info/psk/psk_id/exporter context <= 2 B, export 3 B; conformance of sha2/aes-gcm/chacha20poly1305/curve crates themselves assumed; RFC-valid PSK inputs only"),
  "C03": ("bounded model checking (Kani/CBMC/SAT): real impl_dhkem!/gen_keypair/derive_keypair code over a model group vs RFC 9180 section 4.1/7.1.3 transcription",
          "Encap/Decap/AuthEncap/AuthDecap of the real macro body equal the RFC for all 2^48 toy key triples incl. both DH-failure paths; DeriveKeyPair labels/lengths for ikm 0..=4 B; gen_keypair == derive_keypair(Nsk bytes drawn) and the real KEMs request exactly Nsk bytes (32/32/48/66).",
-         "pk(sk)/DH on the real curves for symbolic keys and the NIST candidate loop on real SHA-2 are not decided (curve/hash arithmetic out of reach); model hash LinHash"),
+         "pk(sk)/DH on the real curves for symbolic keys are not decided (curve arithmetic out of reach); the NIST candidate loop is decided on the real DhP256/DhP384 code with the hash as an arbitrary (scripted) function (P-521 in the thorough tier); model hash LinHash elsewhere"),
  "C04": ("bounded model checking (Kani/CBMC/SAT): one-step induction over an arbitrary context state with a spy AEAD",
          "From ANY (key, 96-bit base nonce, 64-bit seq, overflowed) the nonce handed to the AEAD is base XOR BE64(seq); counter +1 or latch exactly at 2^64-1; an exhausted context refuses forever without touching buffer or AEAD; mix_nonce injective in seq on the three real AEAD types; 3-step history. Covers all 2^64 sequence numbers, which no test can reach.",
          "AEAD replaced by a recording stub (hpke's behaviour does not depend on the AEAD's); plaintext <= 5 B, aad <= 3 B (hpke never branches on them)"),
@@ -31,7 +31,7 @@ T = {
          "on real curves the same statement needs gap-DH (assumed); what is decided is that hpke feeds DH(skS,pkR) and pkSm into the KDF on both sides"),
  "C09": ("bounded model checking (Kani/CBMC/SAT) of the real p256/p384/p521-backed deserialisers",
          "All lengths != size => IncorrectInputLength(expected, given); right length with any tag byte != 0x04 => ValidationError; private keys accepted <=> 1 <= k < n over ALL byte strings (2^256/2^384/2^528) with identical re-serialisation.",
-         "NOT decided: coordinates < p and curve-equation membership of tag-0x04 public keys (symbolic Montgomery arithmetic: 22 GB / no result, measured) - that half of the property is not claimed"),
+         "NOT decided for symbolic inputs: coordinates < p and curve-equation membership of tag-0x04 public keys (symbolic Montgomery arithmetic: 22 GB / no result, measured) - that half of the property is not claimed; only concrete P-256 anchors (valid point accepted, one flipped bit rejected, valid coordinates under tags 0x00/0x02/0x03/0x05 rejected) run through the real curve code; undefined tag bytes (0x06, 0xff, ...) with symbolic coordinates are not decided"),
  "C10": ("bounded model checking (Kani/CBMC/SAT) of the real X25519 wrapper and DHKEM call sites with the dalek scalar multiplication stubbed by an arbitrary-value oracle",
          "X25519::dh returns Err exactly when the multiplication result is all-zero, for every sk/pk encoding; a zero result at the first or second DH gives DecapError on the receiver / EncapError on the sender, propagated by setup_receiver and single-shot open; non-zero results are never rejected.",
          "that each of the 14 small-order encodings multiplies to zero for every scalar is Curve25519 mathematics (ladder out of reach: >20 min symbolic) and is not decided"),
@@ -58,7 +58,7 @@ T = {
          "that rustc accepts the crate and the tests pass under each of the 64 subsets (and examples/benches) is NOT decided: not an SMT question within reach"),
  "C18": ("bounded model checking (Kani/CBMC/SAT) of sequential histories + the Rust type checker for Send/Sync",
          "PARTIAL: history independence (an operation after arbitrary other-session calls still equals the RFC function of its own arguments and RNG bytes, incl. identical RNG streams), commutation/independence of operations on coexisting contexts, Send+Sync of all public types of the 48 suites.",
-         "thread schedules are NOT explored (Kani has no concurrency model); under the no-statics/no-unsafe side condition the sequential results imply the threaded statement by Rust's aliasing rules - an argument, not a check"),
+         "thread schedules are NOT explored (Kani has no concurrency model); hidden global state is covered by re-running the lemmas with every mutable static nondeterministic (CBMC --nondet-static), whose counterexamples are static-state valuations and are reported with the CBMC log (not natively replayable); under the no-statics/no-unsafe side condition the sequential results imply the threaded statement by Rust's aliasing rules - an argument, not a check"),
 }
 
 checks = []
@@ -81,7 +81,7 @@ m = {
     "setup_cmd": "./run.py setup",
     "hooks": {
         "guard": "hpke_verif",
-        "enable": "RUSTFLAGS='--cfg hpke_verif --cfg curve25519_dalek_backend=\"serial\"' HPKE_VERIF_MODEL=/verif/model/inrepo.rs HPKE_VERIF_KEMS=/verif/model/kems.rs (set by run.py; cargo kani forwards them to every crate)",
+        "enable": "RUSTFLAGS='--cfg hpke_verif --cfg curve25519_dalek_backend=\"serial\"' HPKE_VERIF_MODEL=<build dir>/model/inrepo.rs HPKE_VERIF_KEMS=<build dir>/model/kems.rs, where <build dir>/model is run.py's per-run snapshot of /verif/model (set by run.py; cargo kani forwards them to every crate)",
         "baseline_off_cmd": "cd /repo && cargo test --workspace --no-fail-fast --offline",
         "source_commits": list(reversed(hooks)),
         "add_only": True,
